@@ -1,7 +1,7 @@
 """C20 - Xalan's own containers and string class behave like their standard models.
 MC : MapImpl / VectorImpl / StringImpl / ListImpl / DequeImpl (transcriptions of XalanMap, XalanVector, XalanDOMString,
-     XalanList, XalanDeque) refine the abstract models of Containers.tla for all bounded histories; the known deviations
-     of the algorithms (KD_* predicates) are excluded from the refinement and shown to be real.
+     XalanList, XalanDeque) refine the abstract models of Containers.tla for all bounded histories, without exclusions
+     (the nine former deviations were repaired in /repo; the Impl modules transcribe the repaired algorithms).
 GEN: the same TLC runs export one shortest history per transition (pre-state, operation) of each implementation-shaped
      graph (`hist` + VIEW + tlc -dump), tagged with the branches taken (rehash, freed-node reuse, compaction, stale bucket
      reference, reallocation, in-place self insertion, ...); thorough adds `tlc -simulate` histories of length 40 and
@@ -48,25 +48,25 @@ def models(tier):
         mapcfg("map-4", (3, 4), 2, 3, 3, 5, 1, 6, False)
     M.append(dict(name="vector", mod="Vector", c="vector", spec="GenSpec",
                   consts=dict(NVals=2, MaxLen=4, MaxHist=4, MaxSrc=2, MaxCap=5) if q else dict(NVals=2, MaxLen=5, MaxHist=5, MaxSrc=3, MaxCap=6), p={},
-                  props=["INVARIANT WellFormedInv", "PROPERTY Refinement", "PROPERTY DeviationsAreReal"],
-                  need=["realloc", "insertInPlace", "eraseShift", "assignInPlace", "deviation"]))
+                  props=["INVARIANT WellFormedInv", "PROPERTY Refinement"],
+                  need=["realloc", "insertInPlace", "eraseShift", "assignInPlace", "repaired"]))
     M.append(dict(name="string", mod="String", c="string", spec="GenSpec",
                   consts=dict(NUnits=2, MaxLen=4, MaxHist=3, MaxSrc=2) if q else dict(NUnits=2, MaxLen=5, MaxHist=4, MaxSrc=3), p={},
-                  props=["INVARIANT InvariantsInv", "PROPERTY Refinement", "PROPERTY DeviationsAreReal"],
-                  need=["realloc", "selfInPlace", "selfMove", "emptyWithBuffer", "deviation"]))
+                  props=["INVARIANT InvariantsInv", "PROPERTY Refinement"],
+                  need=["realloc", "selfInPlace", "selfMove", "emptyWithBuffer", "repaired"]))
     M.append(dict(name="list", mod="List", c="list", spec="Spec",
                   consts=dict(NVals=2, MaxLen=3, MaxHist=4, MaxSrc=2) if q else dict(NVals=2, MaxLen=4, MaxHist=5, MaxSrc=3), p={},
                   props=["INVARIANT WellFormedInv", "PROPERTY Refinement"],
                   need=["reuse", "selfSplice", "splice"]))
     M.append(dict(name="deque", mod="Deque", c="deque", spec="GenSpec",
                   consts=dict(NVals=2, MaxLen=5, MaxHist=5 if q else 6, MaxSrc=3, BlockSize=2), p=dict(blockSize=2),
-                  props=["INVARIANT WellFormedInv", "PROPERTY Refinement", "PROPERTY DeviationsAreReal"],
-                  need=["blockReuse", "newBlock", "blockFreed", "deviation"]))
+                  props=["INVARIANT WellFormedInv", "PROPERTY Refinement"],
+                  need=["blockReuse", "newBlock", "blockFreed", "repaired"]))
     if not q:
         M.append(dict(name="deque-3", mod="Deque", c="deque", spec="GenSpec",
                       consts=dict(NVals=2, MaxLen=7, MaxHist=5, MaxSrc=4, BlockSize=3), p=dict(blockSize=3),
-                      props=["INVARIANT WellFormedInv", "PROPERTY Refinement", "PROPERTY DeviationsAreReal"],
-                      need=["blockReuse", "newBlock", "deviation"]))
+                      props=["INVARIANT WellFormedInv", "PROPERTY Refinement"],
+                      need=["blockReuse", "newBlock", "repaired"]))
     return M
 
 
@@ -132,8 +132,8 @@ def last_record(raw):
 def export_histories(dump, need, caps, seed):
     """the leaf (fin = TRUE) states of the dump = one shortest history per transition.  All of them were checked by
     TLC; the real code replays those whose last operation takes one of the `need` branches (up to caps[0]), a seeded
-    sample of the others (up to caps[1]) and of those that end in a known deviation (up to caps[2]), chosen by hash
-    so that TLC's worker interleaving has no say."""
+    sample of the others (up to caps[1]) and of those that run through code repaired by a fix: commit (tag "repaired",
+    the former known deviations; up to caps[2]), chosen by hash so that TLC's worker interleaving has no say."""
     import hashlib
     tagged, plain, dev, leaves = [], [], [], 0
     for st in read_states(dump):
@@ -143,11 +143,18 @@ def export_histories(dump, need, caps, seed):
         tags = tags_of(st)
         # identity of the transition = (pre-state, last operation): the same whichever shortest history TLC kept
         h = hashlib.sha1(("%d|%s|%s" % (seed, st.get("prev", ""), last_record(st["hist"]))).encode()).hexdigest()
-        (dev if "deviation" in tags else tagged if any(t in need for t in tags) else plain).append((h, st["hist"], tags))
+        (dev if "repaired" in tags else tagged if any(t in need for t in tags) else plain).append((h, st["hist"], tags))
     tagged.sort(); plain.sort(); dev.sort()
-    sel = tagged[:caps[0]] + plain[:caps[1]] + dev[:caps[2]]
+    per_op, dsel = {}, []                              # the repaired paths: up to caps[2] per kind of operation, so that
+    for x in dev:                                      # every repaired defect keeps its regression witnesses in the sample
+        mm = re.search(r'op \|-> "(\w+)"', last_record(x[1]))
+        o = mm.group(1) if mm else "?"
+        per_op[o] = per_op.get(o, 0) + 1
+        if per_op[o] <= caps[2]:
+            dsel.append(x)
+    sel = tagged[:caps[0]] + plain[:caps[1]] + dsel
     out = [(tlaparse.parse_value(raw), tags) for _, raw, tags in sel]
-    return out, {"transitions": leaves, "tagged": len(tagged), "known_deviation": len(dev), "replayed": len(out)}
+    return out, {"transitions": leaves, "tagged": len(tagged), "repaired_path": len(dev), "replayed": len(out)}
 
 
 def run_model(m, wd, workers, caps, seed):
@@ -159,14 +166,14 @@ def run_model(m, wd, workers, caps, seed):
     if not r["ok"]:
         raise vlib.Infra("model checking %s failed (rc=%s):\n%s" % (m["name"], r["rc"], r["out"][-4000:]))
     t = time.time()
-    hs, counts = export_histories(dump + ".dump", set(m["need"]) - {"deviation"}, caps, seed)
+    hs, counts = export_histories(dump + ".dump", set(m["need"]) - {"repaired"}, caps, seed)
     os.remove(dump + ".dump")
     vlib.log("c20: %s: TLC %.1fs (%d distinct), %s, read in %.1fs" % (m["name"], r["wall"], r["distinct"], counts, time.time() - t))
     return r, hs, counts
 
 
 def simulate(m, wd, num, depth, seed, workers):
-    """tlc -simulate: `num` random histories of `depth` operations (SimSpec: deviations kept out)"""
+    """tlc -simulate: `num` random histories of `depth` operations (SimSpec)"""
     mm = dict(m, consts=dict(m["consts"], MaxHist=depth))
     if m["c"] in ("vector", "string", "list", "deque"):
         grow = {"vector": 6, "string": 6, "list": 5, "deque": 7}[m["c"]]
@@ -242,7 +249,17 @@ def random_set_cases(rnd, count, length, nkeys):
     return cases
 
 
-# ---------------------------------------------------------------------------------------- known deviations
+# ---------------------------------------------------------------------------------------- former deviations
+def findings_any_status(prop):
+    """all entries of the known-findings files for this property, fixed ones included (vlib returns only `known`)"""
+    out = []
+    for path in [os.path.join(ROOT, "known_findings.jsonl")] + sorted(glob.glob(os.path.join(ROOT, "known_findings.d", "*.jsonl"))):
+        if os.path.exists(path):
+            out += [r for r in vlib.read_ndjson(path) if r.get("property") == prop]
+    return out
+
+
+
 def _deq_resize(size, n):
     i = 0
     if n > size:
@@ -256,7 +273,8 @@ def _deq_resize(size, n):
 
 def classify(c, pre, op, ev):
     """semantic key of a rejected step, if the recorded outcome is exactly what the known deviating algorithm
-    (KD_* in VectorImpl / StringImpl / DequeImpl) produces; None otherwise.  pre = observation before the step."""
+    produced before the fix: commits (all nine keys are "fixed" now: a match is reported as a VIOLATION that names
+    the key, i.e. a regression); None otherwise.  pre = observation before the step."""
     o = op["op"]
     aborted = ev.get("e") == "Abort"
     obs = ev.get("obs", {})
@@ -374,7 +392,7 @@ def run(res, tier, seed):
     exe_future = ThreadPoolExecutor(max_workers=1).submit(build_exe)
     cases, tagcount = [], {}
     par = 3
-    caps = (1600, 900, 120) if quick else (12000, 5000, 400)
+    caps = (1300, 700, 25) if quick else (12000, 5000, 300)
     with ThreadPoolExecutor(max_workers=par) as ex:
         outs = list(ex.map(lambda m: run_model(m, wd, max(2, vlib.NCPU // (par + 1)), caps, seed), ms))
     for m, (r, hs, counts) in zip(ms, outs):
@@ -422,7 +440,8 @@ def run(res, tier, seed):
     rejects, st = vlib.tlc_validate_sharded(TRACE, events, shards=8 if quick else 12, tag="c20tv", timeout=3000)
     res.notes["tv_states"] = st["tv_states"]
     res.notes["tv_wall_s"] = round(time.time() - t2, 1)
-    known = {k["key"]: k for k in vlib.known_findings(PROP)}
+    known = {k["key"]: k for k in vlib.known_findings(PROP)}          # status "known" only: those are reported as KNOWN-FINDING
+    fixed = {k["key"]: k for k in findings_any_status(PROP) if k.get("status") == "fixed"}
     starts, pos = [], 0
     for ex_ in execs:
         starts.append(pos); pos += len(ex_)
@@ -449,6 +468,10 @@ def run(res, tier, seed):
                 op = case["ops"][k - 2] if 0 <= k - 2 < len(case["ops"]) else {"op": "new" if k < 2 else "destroy"}
                 why = ex_[k].get("why") or "status %s" % ex_[k].get("status")
                 msg = "%s %s aborted the real code (%s)" % (case["c"], json.dumps(op, sort_keys=True), why)
+            if key and key in fixed:             # the recorded outcome is exactly what the defect produced before its repair
+                msg = "REGRESSION of fixed finding %s (%s): %s" % (key, fixed[key].get("commit", "?"), msg)
+            elif key:
+                msg = "[%s] %s" % (key, msg)
             res.violation(msg, ex_[:k + 1])
     res.cov["traces_validated_against_impl"] = len(execs) - len(bad)
     # ---- coverage accounting
@@ -462,8 +485,8 @@ def run(res, tier, seed):
                        "and a seeded sample of the others (up to %d) - TLC itself checks all of them -, plus seeded random histories of XalanSet / default-parameter "
                        "XalanMap%s; non-trivial = the last operation takes a tagged branch of the transcribed algorithm (rehash, reuse of a "
                        "freed node, bucket compaction, stale bucket reference, reallocation, in-place insertion / self insertion, element "
-                       "shifting, block recycling, splice, a known deviation) or the history is a long random one; distinct by hash of "
-                       "(container, parameters, operations)" % (caps[0], caps[1] + caps[2], "" if quick else " and tlc -simulate histories of 40 operations"))
+                       "shifting, block recycling, splice, a path repaired by a fix: commit) or the history is a long random one; distinct by hash of "
+                       "(container, parameters, operations)" % (caps[0], caps[1], "" if quick else " and tlc -simulate histories of 40 operations"))
     by = {}
     for case in cases:
         by[case["c"]] = by.get(case["c"], 0) + 1
